@@ -9,8 +9,8 @@ from regexlib import gen_tables
 
 KIND_PROP = {"a": "C06", "i": "C06", "c": "C06", "d": "C06", "y": "C06", "pu": "C06", "p": "C06", "=": "C06",
              "k": "C06", "rs": "C06", "null": "C06", "se": "C06", "s": "C14", "g": "C15", "v": "C15",
-             "u": "C04", "redo": "C04"}
-REGNAMES = [0, 97, 98] + list(range(49, 58))
+             "u": "C04", "redo": "C04", "r": "C06", "!": "C06", "@": "C06"}
+REGNAMES = [0, 97, 98, 109] + list(range(49, 58))
 
 
 def run_vi(ctx, args, stdin_bytes, env_extra=None, timeout=20, cwd=None, trace=True, fsize=None):
@@ -106,9 +106,16 @@ def compare(exp, got):
 def run_script(ctx, script, mode_args=("-s", "-e")):
     """type one generated script into the binary; returns dict(status, step, field, ...)"""
     typed = b"".join(txt(s["typed"]).encode("utf-8", "surrogateescape") for s in script["steps"]) + b"q!\n"
-    recs, rc, err, to, work = run_vi(ctx, list(mode_args), typed)
+    # the working directory holds the files of Gen_Ex!FilePool; writeany lets :range!filter run in a modified buffer
+    work = tempfile.mkdtemp(prefix="run-", dir=ctx.scratch)
+    with open(os.path.join(work, "f1"), "w", encoding="utf-8") as f:
+        f.write("r1\n\u00e9 r2\n\n")
+    open(os.path.join(work, "f0"), "w").close()
+    recs, rc, err, to, work = run_vi(ctx, list(mode_args), typed, cwd=work, env_extra={"EXINIT": "se wa"})
     shutil.rmtree(work, True)
     states = toplevel_states(recs)
+    if states and states[0][1].get("ln") == b"se wa".hex():
+        states = states[1:]          # the EXINIT line
     complete = bool(recs) and recs[-1].get("ev") == "exit" and rc == 0
     res = {"seed": script["seed"], "profile": script.get("profile"), "nsteps": len(script["steps"]), "checked": 0,
            "status": "ok", "complete": complete, "rc": rc}
@@ -216,6 +223,9 @@ def ex_check(ctx, own, profile, nscripts, nsteps, rule, assumptions, module="Gen
     changed = sum(1 for sc, r in zip(scripts, results) for i, s in enumerate(sc["steps"][:r["checked"]])
                   if any(KIND_PROP.get(k) == own for k in s["kinds"]) and
                   (i == 0 or s["exp"]["lines"] != sc["steps"][i - 1]["exp"]["lines"] or s["exp"]["out"]))
+    import collections
+    kinds = collections.Counter(k for sc, r in zip(scripts, results) for s in sc["steps"][:r["checked"]] for k in s["kinds"])
+    st["commands_by_kind"] = dict(sorted(kinds.items()))
     samples = []
     for sc, r in zip(scripts[:2], results[:2]):
         samples.append({"seed": sc["seed"], "script": [txt(s["typed"]) for s in sc["steps"][:12]],
